@@ -16,7 +16,8 @@ therefore print byte-identical transcripts, whatever optional transformation the
 
 API
 ---
-    prog = gen_program(rng, features=None, n_units=None)      # pure function of the rng state
+    prog = gen_program(rng, features=None, n_units=None, want_lib=None)   # pure function of the rng state
+    random_features(rng, force=(), forbid=())                 # the default feature choice, adjustable
     prog.units                 # list[Unit]: .name .lang ("c"|"c++"|"s") .group ("exe"|"lib")
                                #   .source(code_model) -> text, .flags(code_model) -> tuple
     prog.features              # frozenset of enabled feature names (subset of ALL_FEATURES)
@@ -228,16 +229,26 @@ class Program:
         return d
 
 
-def _pick_features(r, features):
-    if features is not None:
-        return frozenset(features)
-    # every feature on with probability ~0.7, so programs are rich but differ
+def random_features(r, force=(), forbid=()):
+    """A random feature subset (each feature on with probability ~0.7; C++ in a minority of
+    programs because its links are larger), plus `force`, minus `forbid`."""
     fs = set(f for f in ALL_FEATURES if r.random() < 0.7)
     if r.random() < 0.6:
-        fs.discard("cxx")          # C++ links are larger; keep them to a minority
+        fs.discard("cxx")
+    fs |= set(force)
+    fs -= set(forbid)
     if "tls" not in fs:
         fs.discard("tls_thread")
     return frozenset(fs)
+
+
+def _pick_features(r, features):
+    if features is not None:
+        fs = set(features)
+        if "tls" not in fs:
+            fs.discard("tls_thread")
+        return frozenset(fs)
+    return random_features(r)
 
 
 def gen_program(r, features=None, n_units=None, want_lib=None):
